@@ -575,3 +575,62 @@ def empty_object_still_written(ctx):
     reads = [c for c in own_calls(f.node) if isinstance(c.func, ast.Attribute) and c.func.attr == 'read']
     ctx.ob(f, 'read(self._chunksize) once per __next__', len(reads) == 1 and len(inc) == 1 and reads[0].args and norm(reads[0].args[0]) == 'self._chunksize'
            and q.in_loop(reads[0]) is None, 'each step must read exactly one chunk of the configured size')
+
+
+@rule('C16.g', ['C16', 'C02', 'C11'], floor=2)
+def the_write_heap_is_only_touched_through_heapq(ctx):
+    """DeferQueue._writes is a heap: heapq.heappush / heappop keep the smallest offset at
+    index 0, which is all the release loop looks at.  Any other mutation of the list
+    (remove, append, insert, sort, item or slice assignment, del) breaks the heap order
+    unless it re-heapifies; afterwards a larger offset can sit at the head while a
+    contiguous smaller one is buried, and the data behind it is withheld for ever."""
+    cl = ctx.cls(DQ)
+    n = 0
+    for m in cl.methods.values():
+        if m.name == '__init__':
+            continue
+        for x in own_nodes(m.node):
+            if isinstance(x, ast.Call) and isinstance(x.func, ast.Attribute) and dotted(x.func.value) == 'self._writes':
+                n += 1
+                ctx.ob(m, x, False, f'self._writes.{x.func.attr}(...) touches the heap list directly')
+            elif isinstance(x, (ast.Subscript, ast.Attribute)) and not isinstance(x.ctx, ast.Load) and (dotted(x) == 'self._writes' or (isinstance(x, ast.Subscript) and dotted(x.value) == 'self._writes')):
+                n += 1
+                ctx.ob(m, x, False, 'the heap list is assigned / deleted into directly')
+            elif isinstance(x, ast.Call) and (dotted(x.func) or '').startswith('heapq.') and x.args and dotted(x.args[0]) == 'self._writes':
+                n += 1
+                ctx.ob(m, x, (dotted(x.func) or '') in ('heapq.heappush', 'heapq.heappop', 'heapq.heapify', 'heapq.heappushpop', 'heapq.heapreplace'), 'heapq operation on the write heap')
+    ctx.need(n >= 2, 'DeferQueue no longer uses self._writes through heapq')
+
+
+@rule('C16.h', ['C16', 'C04', 'C17', 'C12', 'C08'], floor=8)
+def locks_exist_before_they_are_shared(ctx):
+    """Every lock / condition attribute that a method takes with `with self.<attr>:` (or
+    acquire()) is bound in the class's __init__ to a threading primitive - not created
+    lazily on first use (cached_property, `if not hasattr`, setdefault): two threads that
+    arrive together would each create and take their own lock, and the region is not
+    mutually exclusive for exactly the callers that race."""
+    n = 0
+    for cl in ctx.p.classes.values():
+        used = set()
+        for m in cl.methods.values():
+            for x in own_nodes(m.node):
+                if isinstance(x, (ast.With, ast.AsyncWith)):
+                    for it in x.items:
+                        d = dotted(it.context_expr) or ''
+                        if d.startswith('self.') and d.count('.') == 1 and q.is_lock_expr(it.context_expr):
+                            used.add(d.split('.')[1])
+        for a in sorted(used):
+            init_vals = [v for c in cl.mro() for fn, v in c.init_attrs.get(a, []) if fn.name == '__init__']
+            # constructor hooks that the base class calls from its own __init__ (queue.Queue._init) count as construction
+            for c in cl.mro():
+                for hook in ('_init', '__new__', '__post_init__'):
+                    hm = c.methods.get(hook)
+                    if hm is not None:
+                        init_vals += [n.value for n in own_nodes(hm.node) if isinstance(n, ast.Assign) and any(dotted(t) == f'self.{a}' for t in n.targets)]
+            eager = any(isinstance(v, ast.Call) and (dotted(v.func) or '').split('.')[-1] in ('Lock', 'RLock', 'Condition', 'Semaphore', 'BoundedSemaphore') for v in init_vals) \
+                or any(isinstance(v, ast.Name) for v in init_vals)   # a lock handed in by the creator
+            lazy = any(a == m2.name for c in cl.mro() for m2 in c.methods.values())   # a method / (cached) property of that name
+            n += 1
+            ctx.ob(cl.qualname, f'self.{a} is created in __init__', eager and not lazy,
+                   f'self.{a} is taken as a lock but is not bound to a threading primitive in __init__ (lazy creation is not atomic: racing first users get different locks)')
+    ctx.need(n >= 8, f'only {n} lock attributes found')
